@@ -27,7 +27,7 @@ pub mod c18_angle;
 pub mod c19_rand;
 pub mod mutate;
 
-pub type MonFn = fn(&Cfg, &mut Report);
+pub use rftk::cli::MonFn;
 
 pub fn lookup(prop: &str) -> Option<MonFn> {
     Some(match prop {
